@@ -4,44 +4,13 @@ from django.conf import settings
 
 if not settings.configured:
     settings.configure(
-        INSTALLED_APPS=["django.contrib.contenttypes"],
+        INSTALLED_APPS=["sim.host.djapp.apps.SimHostConfig"],
         DATABASES={"default": {"ENGINE": "django.db.backends.sqlite3", "NAME": ":memory:"}},
         USE_TZ=True,
         DEFAULT_AUTO_FIELD="django.db.models.AutoField",
     )
     django.setup()
 
-from django.db import models  # noqa: E402
-
-
-class Author(models.Model):
-    name = models.CharField(max_length=64)
-
-    class Meta:
-        app_label = "simhost"
-        db_table = "author"
-
-
-class Post(models.Model):
-    title = models.CharField(max_length=64)
-    rating = models.IntegerField()
-    author = models.ForeignKey(Author, null=True, on_delete=models.CASCADE,
-                               related_name="posts")
-
-    class Meta:
-        app_label = "simhost"
-        db_table = "post"
-
-
-class Comment(models.Model):
-    body = models.CharField(max_length=64)
-    post = models.ForeignKey(Post, on_delete=models.CASCADE, related_name="comments")
-    writer = models.ForeignKey(Author, null=True, on_delete=models.CASCADE,
-                               related_name="written")
-
-    class Meta:
-        app_label = "simhost"
-        db_table = "comment"
-
+from .djapp.models import Author, Comment, Post  # noqa: E402
 
 MODELS = {"Author": Author, "Post": Post, "Comment": Comment}
